@@ -1141,7 +1141,7 @@ impl DefaultFunction {
                 let d1 = args[0].unwrap_data()?;
                 let d2 = args[1].unwrap_data()?;
 
-                let value = Value::bool(d1.eq(d2));
+                let value = Value::bool(data_equals(d1, d2));
 
                 Ok(value)
             }
@@ -2045,6 +2045,35 @@ impl DefaultFunction {
                 Ok(value)
             }
         }
+    }
+}
+
+/// Equality of the values two Data denote, whichever CBOR form (definite or indefinite
+/// containers, small integer or bignum, compact or general constructor tag) they were decoded from.
+fn data_equals(left: &PlutusData, right: &PlutusData) -> bool {
+    match (left, right) {
+        (PlutusData::BigInt(l), PlutusData::BigInt(r)) => {
+            from_pallas_bigint(l) == from_pallas_bigint(r)
+        }
+        (PlutusData::BoundedBytes(l), PlutusData::BoundedBytes(r)) => l == r,
+        (PlutusData::Array(l), PlutusData::Array(r)) => {
+            l.len() == r.len() && l.iter().zip(r.iter()).all(|(l, r)| data_equals(l, r))
+        }
+        (PlutusData::Map(l), PlutusData::Map(r)) => {
+            l.len() == r.len()
+                && l.iter()
+                    .zip(r.iter())
+                    .all(|((lk, lv), (rk, rv))| data_equals(lk, rk) && data_equals(lv, rv))
+        }
+        (PlutusData::Constr(l), PlutusData::Constr(r)) => {
+            l.constr_index() == r.constr_index()
+                && l.fields.len() == r.fields.len()
+                && l.fields
+                    .iter()
+                    .zip(r.fields.iter())
+                    .all(|(l, r)| data_equals(l, r))
+        }
+        _ => false,
     }
 }
 
